@@ -118,9 +118,15 @@ class Summary:
         if isinstance(st, ast.Assign) and len(st.targets) == 1:
             t, v = st.targets[0], st.value
             if isinstance(t, ast.Name):
-                if isinstance(v, ast.Call) and ast.unparse(v) == "bytearray(len(%s))" % self.data:
-                    self.buffer = t.id
-                    return
+                if isinstance(v, ast.Call) and isinstance(v.func, ast.Name) and v.func.id == "bytearray" and len(v.args) == 1 and not v.keywords:
+                    try:
+                        n = self.expr(v.args[0])
+                    except Unknown:
+                        n = None
+                    if n is not None and B.is_zero(n - self.L):
+                        self.buffer = t.id
+                        return
+                    raise Unknown("buffer %s is not allocated with the length of the data" % t.id)
                 self.env[t.id] = self.expr(v)
                 return
             if isinstance(t, ast.Subscript) and isinstance(t.value, ast.Name):
@@ -148,6 +154,9 @@ class Summary:
             return
         if isinstance(st, ast.While):
             self.loop(st)
+            return
+        if isinstance(st, ast.For):
+            self.for_loop(st)
             return
         if isinstance(st, ast.Pass) or (isinstance(st, ast.Expr) and isinstance(st.value, ast.Constant)):
             return
@@ -192,6 +201,38 @@ class Summary:
             # f was recorded at k = 0; its per-iteration strides come from the deltas of the variables it used
             self.families.append(Family(f.dst_buf, f.dst0, f.dstd_fn(deltas), f.src_buf, f.src0, f.srcd_fn(deltas), T))
         self.env = {v: entry[v] + Aff.of(T).scale(deltas[v]) for v in entry}
+
+    def for_loop(self, st):
+        """for v in range([lo,] hi): copies with indices affine in v -> families with T = hi - lo."""
+        it = st.iter
+        if st.orelse or not isinstance(st.target, ast.Name) or not (isinstance(it, ast.Call) and isinstance(it.func, ast.Name) and it.func.id == "range"
+                                                                    and 1 <= len(it.args) <= 2 and not it.keywords):
+            raise Unknown("loop %s" % ast.unparse(st)[:60])
+        v = st.target.id
+        lo = self.expr(it.args[0]) if len(it.args) == 2 else Aff(0)
+        hi = self.expr(it.args[-1])
+        T = hi - lo if B.decide_ge0(hi - lo - 1, "loop@%d entered" % st.lineno) else Aff(0)
+        for b in st.body:
+            if not (isinstance(b, ast.Assign) and len(b.targets) == 1 and isinstance(b.targets[0], ast.Subscript) and isinstance(b.value, ast.Subscript)
+                    and isinstance(b.targets[0].value, ast.Name) and isinstance(b.value.value, ast.Name)
+                    and not isinstance(b.targets[0].slice, ast.Slice) and not isinstance(b.value.slice, ast.Slice)):
+                raise Unknown("statement %s in a weave loop" % ast.unparse(b)[:60])
+            saved = self.env.get(v)
+            self.env[v] = lo
+            d0, s0 = self.expr(b.targets[0].slice), self.expr(b.value.slice)
+            self.env[v] = lo + 1
+            d1, s1 = self.expr(b.targets[0].slice), self.expr(b.value.slice)
+            dd, sd = B.norm(d1 - d0), B.norm(s1 - s0)
+            # affine in v: the second difference vanishes
+            self.env[v] = lo + 2
+            d2, s2 = self.expr(b.targets[0].slice), self.expr(b.value.slice)
+            if not (dd.is_const() and sd.is_const() and B.is_zero(d2 - d1 - dd) and B.is_zero(s2 - s1 - sd)):
+                raise Unknown("index not affine in the loop variable at line %d" % b.lineno)
+            if saved is None:
+                self.env.pop(v, None)
+            else:
+                self.env[v] = saved
+            self.families.append(Family(b.targets[0].value.id, d0, int(dd.c), b.value.value.id, s0, int(sd.c), T))
 
     def block_loop_body(self, body):
         for st in body:
